@@ -10,7 +10,7 @@
  * alarm.
  *
  *   gcc -O2 -pthread -o mine mine.c model.c && ./mine <task> <log2 candidates> <threads>   >> pinned/special.txt
- *   tasks: hashmid hashfin aead128 aead192 aead256 sivforge128 sivforge192 sivforge256 siv128 siv192 siv256 prng
+ *   tasks: hashmid hashfin hmacin aead128 aead192 aead256 sivforge128 sivforge192 sivforge256 siv128 siv192 siv256 prng
  */
 #include "model.h"
 #include <pthread.h>
@@ -134,6 +134,27 @@ static void *worker(void *arg)
                 emit(line);
             }
         }
+    } else if (!strcmp(task, "hmacin")) {
+        /* HMAC: the INNER digest H((K ^ ipad) || m) has a rare word pattern (key fixed per thread, 8-byte messages) */
+        uint8_t k16[16], blk[64], msg[8], d[32];
+        m_hash_t h0, h;
+        for (i = 0; i < 16; ++i) k16[i] = (uint8_t)("hmac-special-key"[i] ^ (i == 15 ? tid : 0));
+        memset(blk, 0x36, 64); for (i = 0; i < 16; ++i) blk[i] ^= k16[i];
+        m_hash_init(&h0); m_hash_update(&h0, blk, 64);
+        msg[0] = 0x5A; m_hash_update(&h0, msg, 1);      /* forces the fourth ipad block to be compressed once, not per candidate */
+        for (c = 0; c < per_thread; ++c) {
+            uint32_t w[8];
+            int pat;
+            for (i = 0; i < 7; ++i) msg[1 + i] = (uint8_t)(c >> (8 * i));
+            h = h0; m_hash_update(&h, msg + 1, 7); m_hash_final(&h, d);
+            for (i = 0; i < 8; ++i) w[i] = ld(d + 4 * i);
+            pat = word_patterns(w, 8, name, sizeof name);
+            if (pat >= 0 && take(pat)) {
+                hex(h1, k16, 16); hex(h2, msg, 8);
+                snprintf(line, sizeof line, "hmacin %s %s inner-digest:%s", h1, h2, name);
+                emit(line);
+            }
+        }
     } else if (!strcmp(task, "prng")) {
         for (c = 0; c < per_thread; c += 48) {
             m_drbg_t d;
@@ -154,6 +175,11 @@ static void *worker(void *arg)
                     vb[j] = v; s[j] = h;
                 }
                 { uint32_t carry = 0; for (j = 7; j >= 0; --j) { uint64_t t = (uint64_t)vb[j] + s[j] + carry; s[j] = (uint32_t)t; carry = (uint32_t)(t >> 32); } }   /* V + H, word-wise with carries */
+                {   /* does adding the block counter to the low word of V + H + C carry out of that word? (probability counter / 2^32) */
+                    uint32_t c7 = ((uint32_t)d.C[28] << 24) | ((uint32_t)d.C[29] << 16) | ((uint32_t)d.C[30] << 8) | d.C[31];
+                    uint64_t low = (uint64_t)(uint32_t)(s[7] + c7) + (uint64_t)d.counter;
+                    if (low >> 32) { pat = 17; snprintf(name, sizeof name, "low32(V+H+C)+counter-carries"); }
+                }
                 m_drbg_block(&d, blk, 32);
                 for (j = 0; j < 8; ++j) w[j] = ld(blk + 4 * j);
                 for (j = 0; j < 8 && pat < 0; ++j) if (s[j] == 0) { pat = j; snprintf(name, sizeof name, "(V+H).w%d=00000000", j); }
